@@ -24,7 +24,8 @@ Notation rerase := (StExprProofs.erase token t_text tok_num).
 
 (* expressions: any level, any continuation that cannot extend the expression *)
 Theorem pexpr_real : forall (s : rsx) q rest f,
-  rwf q s -> follow_lt token tok_class op_level q rest -> follow_ok token tok_class s rest -> 1 + StExprProofs.size token s <= f ->
+  rwf q s -> follow_lt token tok_class op_level q rest -> follow_ok token tok_class s rest -> nosel token tok_class rest ->
+  1 + StExprProofs.size token s <= f ->
   pexpr token tok_class t_text tok_num op_level f q (rflat s ++ rest) = Ok (rerase s, rest).
 Proof. apply pexpr_spelled. Qed.
 
@@ -36,7 +37,7 @@ Proof. apply plist_spelled. Qed.
 
 (* ---- the wrapper ---- *)
 Lemma class_by_kind t : kind_class (t_kind t) <> CConst CkInt -> tok_class t = kind_class (t_kind t).
-Proof. unfold tok_class. destruct (kind_class (t_kind t)) as [| |k| | | | | | |o| | |k| | | |]; try reflexivity. destruct k; try reflexivity. intro H. contradiction H. reflexivity. Qed.
+Proof. unfold tok_class. destruct (kind_class (t_kind t)) as [| |k| | | | | | | | | |o| | |k| | | |]; try reflexivity. destruct k; try reflexivity. intro H. contradiction H. reflexivity. Qed.
 
 Lemma class_fb t : t_kind t = KFunctionBlock -> tok_class t = COther.
 Proof. intro H. rewrite class_by_kind; rewrite H; [reflexivity | discriminate]. Qed.
@@ -109,7 +110,7 @@ Definition tkk (k : tok_kind) (tx : text) : token := mkToken k 0%N 0%N 0%N 0%N t
 Definition ex_ws : list token := [tkk KWhitespace [32%N]].
 Definition ex_list : rsl :=
   LOne token (GStmts token
-    (SsAssign token (tkk KIdentifier [120%N]) ex_ws (tkk KAssignment [58%N; 61%N]) ex_ws
+    (SsAssign token (tkk KIdentifier [120%N]) (SsEnd token) ex_ws (tkk KAssignment [58%N; 61%N]) ex_ws
        (SBin token (tkk KPlus [43%N]) BAdd (SName token (tkk KIdentifier [97%N]) ex_ws) [] ex_ws
           (SConst token (tkk KDigits [49%N]) CkInt)))
     (MNil token) ex_ws (tkk KSemicolon [59%N])).
@@ -123,5 +124,5 @@ Proof.
 Qed.
 Example ex_parse :
   parse_fb_tokens ([tkk KFunctionBlock []] ++ ex_ws ++ [tkk KIdentifier [102%N]] ++ ex_ws ++ rflat_l ex_list ++ ex_ws ++ [tkk KEndFunctionBlock []]) =
-  OParsed [TAssign [120%N] (XBin BAdd (XAtom (LfName [97%N])) (XAtom (LfInt false 1%N)))].
+  OParsed [TAssign [120%N] [] (XBin BAdd (XAtom (LfName [97%N])) (XAtom (LfInt false 1%N)))].
 Proof. vm_compute. reflexivity. Qed.
